@@ -11,10 +11,14 @@ META = {
     'explanation': 'E-PATH typestate rules over TimeZone.h/.cpp, ZoneProcessorCache.h, both zone processors and '
                    'ZoneSpecifier.init_for_year: every use of a shared processor is preceded on all paths by the '
                    'rebinding call; the cache returns a processor bound to the request; the cache-valid flag is '
-                   'assigned on every path that overwrites key or content.',
+                   'assigned on every path that overwrites key or content; E-GNF: the key stored by init() is the value '
+                   'isFilled() was asked about and the fill helpers get the same year; ast def-use: init_for_year resets '
+                   'everything its helpers accumulate into; createAbbreviation terminates the pooled buffer at the copied length.',
     'decided': 'rebinding before every processor use; managed arms use the processor the cache returned for this zone; '
                'cache look-up returns a bound processor and its index stays in range; cache-valid flag discipline in '
-               'init()/setZoneInfo()/isFilled(); Python cache key is not left set on a raising path',
+               'init()/setZoneInfo()/isFilled(); cache key == tested year == filled year; Python cache key is not left set on a '
+               'raising path and every accumulated attribute is reset on a refill; abbreviation buffers do not keep bytes of an '
+               'earlier zone or year',
     'not_decided': 'history dependence through any other channel than these mechanisms',
     'assumptions': ['clang 14 parser and template instantiation', 'CPython ast',
                     'virtual calls are resolved to the static callee ZoneProcessor::<m>; overriders are the two processors'],
